@@ -503,19 +503,21 @@ def step(ctx, op, pool, a, b, plan, pe):
                 pe.cov_Obs(1.0, 0.1, "cov|r1")
             elif what == "cov_asymmetric":
                 kw = {"grad": rr.choice([[1.0, 0.0], [0.5, 0.5], np.array([0.0, 2.0])])} if rr.random() < 0.5 else {}
+                sc_ = rr.choice([1.0, 1.0, 1e-6, 1e-10, 1e-14, 1e6])        # the magnitude of a covariance says nothing about its symmetry
                 if rr.random() < 0.5:
-                    pe.cov_Obs([1.0, 2.0], np.array([[1.0, 0.3], [0.1, 1.0]]), "covM", **kw)
+                    pe.cov_Obs([1.0, 2.0], sc_ * np.array([[1.0, 0.3], [0.1, 1.0]]), "covM", **kw)
                 else:
-                    pe.cov_Obs([1.0, 2.0, 3.0], np.array([[1.0, 0.0, 0.2], [0.0, 1.0, 0.0], [0.1, 0.0, 1.0]]), "covM", **({"grad": [1.0, 0.0, 0.0]} if kw else {}))
+                    pe.cov_Obs([1.0, 2.0, 3.0], sc_ * np.array([[1.0, 0.0, 0.2], [0.0, 1.0, 0.0], [0.1, 0.0, 1.0]]), "covM", **({"grad": [1.0, 0.0, 0.0]} if kw else {}))
             elif what == "cov_indefinite":
                 kw = {"grad": rr.choice([[1.0, 0.0], [0.5, 0.5]])} if rr.random() < 0.5 else {}
                 v = rr.randrange(3)
+                sc_ = rr.choice([1.0, 1.0, 1e-6, 1e-10, 1e6])
                 if v == 0:
-                    pe.cov_Obs([1.0, 2.0], np.array([[1.0, 2.0], [2.0, 1.0]]), "covM", **kw)
+                    pe.cov_Obs([1.0, 2.0], sc_ * np.array([[1.0, 2.0], [2.0, 1.0]]), "covM", **kw)
                 elif v == 1:
-                    pe.cov_Obs([1.0, 2.0], [0.5, -0.1], "covM", **kw)                  # negative entry in a 1d list of variances
+                    pe.cov_Obs([1.0, 2.0], [0.5 * sc_, -0.1 * sc_], "covM", **kw)                  # negative entry in a 1d list of variances
                 else:
-                    pe.cov_Obs(1.0, -0.3, "covM", **({"grad": [1.0]} if kw else {}))    # negative variance
+                    pe.cov_Obs(1.0, -0.3 * sc_, "covM", **({"grad": [1.0]} if kw else {}))    # negative variance
             elif what == "names_len":
                 pe.Obs([x, x], ["A|r1"])
             elif what == "idl_len":
